@@ -78,6 +78,9 @@ def rollout_ops(rng, rounds):
 
 def random_env_op(rng, n, images=("img:1", "img:2", "img:3"), allow_cmds=True, name=EDS, ns=NS):
     r = rng.random()
+    if r < 0.04:
+        # a manifest re-applied with a name on the pod template (defaulting clears it again)
+        return edit("ExtendedDaemonSet", ns, name, "tmplname:" + rng.choice(["agent", "agent", ""]))
     if r < 0.22:
         return edit("ExtendedDaemonSet", ns, name, "image:" + rng.choice(images))
     if r < 0.32:
